@@ -89,10 +89,26 @@ def run(ctx):
         if isinstance(n, ast.Attribute) and isinstance(n.value, ast.Name) and n.value.id == 'self' and isinstance(n.ctx, ast.Load) \
                 and n.attr not in ArcC.methods:
             reads.add(n.attr)
+    def stores_of(mname, seen=()):
+        """attributes a method of the class stores on self, helpers it calls included"""
+        m_ = ArcC.methods.get(mname)
+        out = set()
+        if m_ is None or mname in seen:
+            return out
+        for n_ in walk_no_nested(m_.node):
+            if isinstance(n_, ast.Attribute) and isinstance(n_.ctx, ast.Store) and isinstance(n_.value, ast.Name) and n_.value.id == 'self':
+                out.add(n_.attr)
+            if isinstance(n_, ast.Call) and isinstance(n_.func, ast.Attribute) and isinstance(n_.func.value, ast.Name) and n_.func.value.id == 'self':
+                out |= stores_of(n_.func.attr, seen + (mname,))
+        return out
     missing = []
     for attr in sorted(reads):
         asg = [s for s in walk_no_nested(init.node) if isinstance(s, ast.Assign) and any(
             isinstance(t, ast.Attribute) and isinstance(t.value, ast.Name) and t.value.id == 'self' and t.attr == attr for t in s.targets)]
+        # ... or a helper method called by __init__ stores it (the call statement then plays the part of the assignment)
+        asg += [s for s in walk_no_nested(init.node) if isinstance(s, ast.Expr) and isinstance(s.value, ast.Call) and isinstance(s.value.func, ast.Attribute)
+                and isinstance(s.value.func.value, ast.Name) and s.value.func.value.id == 'self' and s.value.func.attr != '_parameterize'
+                and attr in stores_of(s.value.func.attr)]
         own = [s for s in walk_no_nested(par.node) if isinstance(s, ast.Assign) and any(
             isinstance(t, ast.Attribute) and isinstance(t.value, ast.Name) and t.value.id == 'self' and t.attr == attr for t in s.targets)]
         if not (asg and cfg.dominated_by(calls[0], set(asg))) and not own:
